@@ -28,7 +28,11 @@ Long == {[conns |-> 1, msgs |-> 24, pattern |-> "burst", via |-> v, holdc |-> 1,
 \* "cneof": CloseNotify was requested by the first handler; the second and third message arrive together, the peer
 \* disconnects while the second handler is held: the third is handled after the second has returned
 CnEof == {[conns |-> 1, msgs |-> 3, pattern |-> "interleaved", via |-> v, holdc |-> 1, holdi |-> 2, flavour |-> "cneof"] : v \in {"server", "dial"}}
-Init == s \in Extra \cup RegPending \cup WithCN \cup PanicReg \cup Long \cup CnEof \cup {[conns |-> k, msgs |-> m, pattern |-> p, via |-> v, holdc |-> hc, holdi |-> hi, flavour |-> fl] :
+\* via "sm": connections accepted by a server whose handler is a state machine; the peers of all connections present the
+\* same Origin-Host in their CER
+ViaSM == {[conns |-> k, msgs |-> 2, pattern |-> p, via |-> "sm", holdc |-> hc, holdi |-> hc, flavour |-> "req"] :
+            k \in 2..3, p \in {"burst", "interleaved"}, hc \in 0..1}
+Init == s \in Extra \cup RegPending \cup WithCN \cup PanicReg \cup Long \cup CnEof \cup ViaSM \cup {[conns |-> k, msgs |-> m, pattern |-> p, via |-> v, holdc |-> hc, holdi |-> hi, flavour |-> fl] :
                  k \in 1..MaxConns, m \in 2..MaxMsgs, p \in {"burst", "bytes", "interleaved"}, v \in {"server", "dial", "tcp"},
                  hc \in 0..MaxConns, hi \in 0..MaxMsgs, fl \in {"req", "ans", "mixed", "dwr"}}
 Next == UNCHANGED s
